@@ -18,7 +18,10 @@ ArgMaxCases(shape) ==
    \A axis \in (-r - 1)..r, kd \in {"dflt", "0", "1"} :
       LET attrs == (IF axis = 0 /\ kd = "dflt" THEN <<>> ELSE <<AI("axis", axis)>>) \o (IF kd = "dflt" THEN <<>> ELSE <<AI("keepdims", IF kd = "1" THEN 1 ELSE 0)>>)
           X == Ties("f32", shape) s == SemArgMax(X, attrs)
-      IN P(CaseRec("argmax", "ArgMax", attrs, <<X>>, s, <<Tag(s), "keepdims_" \o kd>> \o (IF axis < 0 THEN <<"negative_axis">> ELSE <<>>)))
+      IN /\ P(CaseRec("argmax", "ArgMax", attrs, <<X>>, s, <<Tag(s), "keepdims_" \o kd>> \o (IF axis < 0 THEN <<"negative_axis">> ELSE <<>>)))
+         \* the default value of select_last_index spelled out, before the other attributes (attribute order carries no meaning)
+         /\ (Len(attrs) >= 1 => LET a0 == <<AI("select_last_index", 0)>> \o attrs IN
+                P(CaseRec("argmax", "ArgMax", a0, <<X>>, SemArgMax(X, a0), <<Tag(s), "select_last_index_0_first">>)))
 ArgMaxDt(shape) ==
    \A dt \in {"f64", "i32", "i64", "u32", "u64"} :
       LET X == T(dt, shape, [k \in 1..Size(shape) |-> (k * 7 + 3) % 5]) attrs == <<AI("axis", -1), AI("keepdims", 0)>> s == SemArgMax(X, attrs) IN
